@@ -23,7 +23,7 @@ meta.update({
     'id': sid, 'property': prop, 'author': 'independent sub-agent (given only the property text and a scratch worktree)',
     'needs_to_manifest': meta.get('needs_to_manifest') or notes[:1500],
     'confirmed': {'demo_exit_unchanged_tree': out['demo_clean_rc'], 'demo_exit_with_change': out['demo_mut_rc'],
-                  'baseline_with_change': out.get('baseline'), 'demo_output_with_change': out.get('demo_mut_tail', '')[-300:]},
+                  'baseline_with_change': out.get('baseline') or (meta.get('confirmed') or {}).get('baseline_with_change'), 'demo_output_with_change': out.get('demo_mut_tail', '')[-300:]},
     'what_was_run': ['tools/seeded_eval.py: scratch worktree of /repo HEAD, demo.py without and with patch.diff, tools/baseline.py with the patch, '
                      './check <id> with VERIF_REPO=<scratch worktree> (evidence/replay redirected)'],
 })
